@@ -1,5 +1,7 @@
 mod alloc;
 mod c14;
+mod c16;
+mod c19;
 mod exec;
 mod gen;
 mod golden;
@@ -49,6 +51,14 @@ fn main() {
             let out = args[6].as_str();
             let workers: usize = std::env::var("VERIF_WORKERS").ok().and_then(|s| s.parse().ok()).unwrap_or(16);
             let thorough = tier == "thorough";
+            if prop == "C19" {
+                c19::run(tier, seed, out);
+                return;
+            }
+            if prop == "C16" {
+                c16::run(tier, seed, out);
+                return;
+            }
             if prop == "C14" {
                 c14::run(tier, seed, driver, out);
                 return;
